@@ -6,6 +6,7 @@ import (
 	"sort"
 	"sync"
 
+	"github.com/weedbox/pokerface"
 	"github.com/weedbox/pokerface/combination"
 )
 
@@ -20,6 +21,7 @@ type c03class struct {
 }
 
 func c03Sweep(ctx *RunCtx, rep *Report, short bool, pr combination.PowerRankings, table string, permute bool, allOrders bool) {
+	shortTable := table == "shortdeck"
 	deck := baseDeck(short)
 	n := len(deck)
 	type res struct {
@@ -50,7 +52,7 @@ func c03Sweep(ctx *RunCtx, rep *Report, short bool, pr combination.PowerRankings
 						for d := c + 1; d < n; d++ {
 							for e := d + 1; e < n; e++ {
 								h[0], h[1], h[2], h[3], h[4] = deck[a], deck[b], deck[c], deck[d], deck[e]
-								k, rh := refKey(h, short, pr)
+								k, rh := refKey(h, short, shortTable)
 								if rh.Unspecified {
 									ls++
 									continue
@@ -170,8 +172,18 @@ func c03Sweep(ctx *RunCtx, rep *Report, short bool, pr combination.PowerRankings
 
 func checkC03(ctx *RunCtx) int {
 	rep := NewReport()
-	std := combination.PowerRankings(combination.CombinationPowerStandard)
-	sd := combination.PowerRankings(combination.CombinationPowerShortDeck)
+	// the two shipped tables, obtained the way games obtain them: through the options constructors, in
+	// a process that sets up both variants repeatedly (a table that is damaged by building the other
+	// variant's options shows up as a wrong category order in the sweeps)
+	var std, sd combination.PowerRankings
+	for i := 0; i < 3; i++ {
+		std = pokerface.NewStardardGameOptions().CombinationPowers
+		sd = pokerface.NewShortDeckGameOptions().CombinationPowers
+	}
+	std = pokerface.NewStardardGameOptions().CombinationPowers
+	if fmt.Sprint(std) != fmt.Sprint(combination.PowerRankings(combination.CombinationPowerStandard)) || fmt.Sprint(sd) != fmt.Sprint(combination.PowerRankings(combination.CombinationPowerShortDeck)) {
+		rep.Inc("tables_from_constructors_differ_from_package_tables")
+	}
 	th := ctx.Thorough()
 	// both decks x both shipped ranking tables
 	c03Sweep(ctx, rep, false, std, "standard", true, th)
